@@ -542,6 +542,14 @@ func (p *Prog) reachingDef(f *Func, use *ast.Ident, o types.Object) (VarDef, boo
 		return VarDef{}, false
 	}
 	mentionsAssign := func(n ast.Node) bool {
+		if ra, ok := n.(*RangeAssign); ok {
+			for _, e := range []ast.Expr{ra.Stmt.Key, ra.Stmt.Value} {
+				if id, ok := e.(*ast.Ident); ok && p.ObjOf(id) == o {
+					return true
+				}
+			}
+			return false
+		}
 		found := false
 		ast.Inspect(n, func(x ast.Node) bool {
 			switch y := x.(type) {
